@@ -255,6 +255,13 @@ func runC04L(c *fw.Ctx) {
 			// ElementAccumulator.ValidateTransactionElements (the transaction-pool entry point of the same membership
 			// check): every transaction of a valid block passes; the transaction carrying an altered record does not
 			acc := s.Tip.Elements
+			if vt := p.Block.V2Transactions(); len(vt) > 1 {
+				res.Count("txelements:genuine-composite")
+				if err := acc.ValidateTransactionElements(compositeTxn(vt, types.V2Transaction{}, -1, true)); err != nil {
+					res.Violate(fw.Violation{Key: "c04-txelements-rejects-genuine", What: "ValidateTransactionElements rejected the union of the transactions of a valid block: " + err.Error(),
+						Replay: map[string]any{"mode": mode, "seed": seed, "height": height, "txn": "composite"}, Expected: "nil", Observed: err.Error()})
+				}
+			}
 			for ti, txn := range p.Block.V2Transactions() {
 				res.Count("txelements:genuine")
 				if err := acc.ValidateTransactionElements(txn); err != nil {
@@ -274,6 +281,15 @@ func runC04L(c *fw.Ctx) {
 						res.Eval(fmt.Sprintf("TE/%s/%d/%d/%s/%d", mode, seed, height, m.kind, ti), true)
 						if err := acc.ValidateTransactionElements(mut[ti]); err == nil {
 							res.Violate(fw.Violation{Key: "c04-txelements-accepts-altered:" + m.kind, What: "ValidateTransactionElements accepted a transaction presenting an altered element record (" + m.kind + ")", Replay: rp, Expected: "error", Observed: "nil"})
+						}
+						// the same altered record inside one large transaction, after (and before) all the genuine
+						// elements of the block: every element of a transaction is checked, wherever it stands
+						for _, last := range []bool{true, false} {
+							comp := compositeTxn(orig, mut[ti], ti, last)
+							res.Count("txelements:altered-in-composite")
+							if err := acc.ValidateTransactionElements(comp); err == nil {
+								res.Violate(fw.Violation{Key: "c04-txelements-accepts-altered:composite:" + m.kind, What: fmt.Sprintf("ValidateTransactionElements accepted a transaction in which one of %d element records is altered (%s; altered part last=%v)", len(comp.SiacoinInputs)+len(comp.SiafundInputs)+len(comp.FileContractRevisions)+len(comp.FileContractResolutions), m.kind, last), Replay: rp, Expected: "error", Observed: "nil"})
+							}
 						}
 					}
 				}
@@ -300,4 +316,28 @@ func runC04L(c *fw.Ctx) {
 	if len(ops) > 0 {
 		c.Compare(ops, outs)
 	}
+}
+
+// compositeTxn concatenates the element-carrying parts of txns (skipping index skip) and puts those of `extra`
+// after them (last) or before them.
+func compositeTxn(txns []types.V2Transaction, extra types.V2Transaction, skip int, last bool) types.V2Transaction {
+	var out types.V2Transaction
+	app := func(t types.V2Transaction) {
+		out.SiacoinInputs = append(out.SiacoinInputs, t.SiacoinInputs...)
+		out.SiafundInputs = append(out.SiafundInputs, t.SiafundInputs...)
+		out.FileContractRevisions = append(out.FileContractRevisions, t.FileContractRevisions...)
+		out.FileContractResolutions = append(out.FileContractResolutions, t.FileContractResolutions...)
+	}
+	if !last {
+		app(extra)
+	}
+	for i, t := range txns {
+		if i != skip {
+			app(t)
+		}
+	}
+	if last {
+		app(extra)
+	}
+	return out
 }
